@@ -25,14 +25,16 @@ import (
 func runFreeHistory(idx int, dir, tier string, seed, t0 int64) *ledger {
 	r := histRand(idx, seed)
 	shards := 1 + idx%2
-	families := []int64{t0, t0 - hourMs}
-	p := &plan{Shards: shards, Families: families}
-	L := &ledger{Hist: idx, Seed: seed, Tier: tier, Mode: "free", T0: t0, Shards: shards, Families: families, Counters: map[string]int{}}
+	recent := []int64{t0, t0 - hourMs}
+	old := t0 - 72*hourMs
+	families := append(append([]int64(nil), recent...), old)
+	p := &plan{Shards: shards, Families: families, Old: old}
+	L := &ledger{Hist: idx, Seed: seed, Tier: tier, Mode: "free", T0: t0, Shards: shards, Families: families, Old: old, Counters: map[string]int{}}
 	L.Config = fmt.Sprintf("free shards=%d families=%d", shards, len(families))
 	nodeDir := filepath.Join(dir, "node")
 	world := imgfs.NewWorld(nodeDir, filepath.Join(dir, "img"))
 	world.SetSkip(skipBuffers)
-	d := &driver{dir: dir, L: L, plan: p, world: world, parts: map[partKey]*partState{}, bySeq: map[partKey]map[int64]int{}, arrCh: make(chan func(), 4)}
+	d := &driver{dir: dir, L: L, plan: p, world: world, parts: map[partKey]*partState{}, bySeq: map[partKey]map[int64]int{}, arrCh: make(chan func(), 4), gate: &gcGate{}}
 	ic := &hookIC{world: world, before: d.before}
 	seam.NoFsync = true
 	seam.InstallKV(ic, nil)
@@ -55,8 +57,15 @@ func runFreeHistory(idx int, dir, tier string, seed, t0 int64) *ledger {
 		ps.fam.onWriteRows = d.onWriteRows
 		ps.fam.onCommit = d.onCommit
 		ps.fam.onAck = d.onAck
-	}, true)
-	d.mgr = replica.NewWriteAheadLogManager(d.ctx, walConfig(), selfNode, n.Engine, nil, nil)
+		ps.fam.skipAck = func() bool {
+			if ps.dead.Load() {
+				d.count("ack_callbacks_for_a_partition_the_garbage_collector_removed", 1)
+				return true
+			}
+			return false
+		}
+	}, true, d.gate)
+	d.mgr = replica.NewWriteAheadLogManager(d.ctx, walConfigGC(), selfNode, n.Engine, nil, nil)
 	d.wal = d.mgr.GetOrCreateLog(dbName)
 	var fams []tsdb.DataFamily
 	for s := 0; s < shards; s++ {
@@ -75,14 +84,16 @@ func runFreeHistory(idx int, dir, tier string, seed, t0 int64) *ledger {
 			fams = append(fams, ps.fam.DataFamily)
 		}
 	}
-	g := newGen(r, shards, families)
+	g := newGen(r, shards, recent)
+	g.old = old
+	g.slots[old] = r.Perm(slotsPerFam)
 	g.maxMet = 3
 	drained := func(limit time.Duration) bool { // pacing only
 		deadline := time.Now().Add(limit)
 		for time.Now().Before(deadline) {
 			busy := false
 			for _, key := range L.Parts {
-				if d.parts[key].rep.Pending() > 0 {
+				if !d.parts[key].dead.Load() && d.parts[key].rep.Pending() > 0 {
 					busy = true
 				}
 			}
@@ -101,9 +112,15 @@ func runFreeHistory(idx int, dir, tier string, seed, t0 int64) *ledger {
 		a := g.appendAction(4)
 		d.appendRows(a.Rows, 1, false)
 	}
+	old1 := g.oldAction()
+	d.appendRows(old1.Rows, 1, false)
 	drained(20 * time.Second)
 	time.Sleep(5 * time.Millisecond)
+	// the garbage collect task while the entries of the old family are consumed but not flushed ...
+	d.walGC()
 	cycle(0)
+	// ... and after they were flushed and acknowledged (the partitions of the old family are removed)
+	d.walGC()
 	ic.sample = 4
 	rounds := 2
 	if tier == "thorough" {
@@ -171,9 +188,12 @@ func runFreeHistory(idx int, dir, tier string, seed, t0 int64) *ledger {
 			for i := 0; i < 3; i++ {
 				time.Sleep(flushDelay / 2)
 				for _, key := range L.Parts {
-					d.parts[key].inner.IsExpire()
+					if key.Family != old && !d.parts[key].dead.Load() {
+						d.parts[key].inner.IsExpire()
+					}
 				}
 				d.count("log_sync_gc", 1)
+				d.walGC()
 			}
 		}()
 		wg.Wait()
